@@ -34,6 +34,10 @@ func capTTL(ttl, max int64) time.Duration {
 	if max > 0 && ttl > max {
 		ttl = max
 	}
+	if ttl > math.MaxInt64/int64(time.Second) {
+		// more seconds than a time.Duration can hold: for all practical purposes "never"
+		return time.Duration(math.MaxInt64)
+	}
 	return time.Duration(ttl) * time.Second
 }
 
@@ -49,7 +53,8 @@ func body(s *simrt.Sim, tier string) {
 		s.DisableDelays()
 	}
 	// (the empty string is a key like any other)
-	keys := [][]string{{"a", "b", "c"}, {"", "b", "c"}, {"a", ""}}[s.Choose(3, "keyset")]
+	// (key-7/key-11 and key-8/key-0 land in one bucket of the underlying hash map, at every table size up to 64)
+	keys := [][]string{{"a", "b", "c"}, {"", "b", "c"}, {"a", ""}, {"key-7", "key-11", "key-17"}, {"key-8", "key-0", "key-7"}}[s.Choose(5, "keyset")]
 	keys = keys[:1+s.Choose(len(keys), "keys")]
 	nclients := 1
 	if !sequential {
@@ -67,9 +72,10 @@ func body(s *simrt.Sim, tier string) {
 				val++
 				o.val = val
 				o.ttl = int64(1 + s.Choose(4, "ttl"))
-				if maxTTL > 0 && s.Choose(8, "hugettl") == 0 {
-					// far above MaxTTL: still capped (seconds that do not fit a time.Duration included)
-					o.ttl = []int64{1 << 40, 9223372037, math.MaxInt64}[s.Choose(3, "hugettl.v")]
+				if s.Choose(8, "hugettl") == 0 {
+					// far above MaxTTL: still capped; without a MaxTTL: lives that long (seconds that do not fit a
+					// time.Duration included: an entry meant to stay "for ever")
+					o.ttl = []int64{1 << 33, 9223372036, 9223372037, math.MaxInt64}[s.Choose(4, "hugettl.v")]
 				}
 			case k < 10:
 				o.kind = "Get"
